@@ -237,7 +237,13 @@ def build_model(spec):
 	with torch.no_grad():
 		for p in m.parameters():
 			p.copy_(torch.randn(p.shape, generator=g, dtype=torch.float64).to(dtype)
-				* spec.get("wscale", 0.7))
+				* (spec.get("wscale", 0.7) * (1e-20 if spec.get("tiny_weights") and
+				dtype == torch.float32 else 1.0)))
+		if spec.get("tiny_weights") and dtype == torch.float32:
+			# no biases: activations two layers deep are float32 subnormals
+			for name, p in m.named_parameters():
+				if name.endswith("bias"):
+					p.zero_()
 		for name, b in m.named_buffers():
 			if name.endswith("running_mean"):
 				b.copy_(torch.randn(b.shape, generator=g, dtype=torch.float64).to(b.dtype) * 0.1)
@@ -257,6 +263,17 @@ def build_model(spec):
 			acts[-1].register_forward_pre_hook(_user_pre_hook)
 		if convs:
 			convs[0].register_forward_hook(_user_scale_hook)
+	if spec.get("legacy_bwd_history"):
+		# a user once attached a legacy backward hook to an activation and removed it
+		# again: torch then refuses full backward hooks on that module
+		acts = [sub for sub in m.modules() if type(sub).__module__.startswith(
+			"torch.nn.modules.activation")]
+		if acts:
+			import warnings as _w
+			with _w.catch_warnings():
+				_w.simplefilter("ignore")
+				h = acts[-1].register_backward_hook(lambda mod, gi, go: None)
+			h.remove()
 	if spec.get("stale_grads"):
 		# as in the middle of a training step: parameters already carry .grad
 		g2 = torch.Generator().manual_seed(int(spec["wseed"]) + 5)
@@ -347,7 +364,8 @@ def gen_spec(r, L=None, need_nonlinear=True, allow_custom=True, allow_args=True,
 		"dtype": r.choice(["float64", "float64", "float32"]),
 		"train_mode": r.chance(0.3), "alias_act": r.chance(0.15),
 		"mixed_mode": r.chance(0.15), "user_hooks": r.chance(0.15),
-		"stale_grads": r.chance(0.25)}
+		"stale_grads": r.chance(0.25), "legacy_bwd_history": r.chance(0.08),
+		"tiny_weights": r.chance(0.08)}
 
 
 def gen_onehot(seed, n, L, n_zero_cols=0, alphabet=4, dtype=torch.float64):
